@@ -8,9 +8,11 @@ import (
 	_ "verifharness/c05"
 	_ "verifharness/c06"
 	_ "verifharness/c07"
+	_ "verifharness/c09"
 	_ "verifharness/c10"
 	_ "verifharness/c10r"
 	_ "verifharness/c11"
+	_ "verifharness/c13"
 	_ "verifharness/c14"
 	_ "verifharness/c16"
 	_ "verifharness/c17"
